@@ -1026,6 +1026,14 @@ class PathEval:
                 site = None if is_pure(path) else bb
                 val = ("call", path, tuple(f.get("gargs", ())), args, site)
                 folded = _fold_try(path, args, tuple(f.get("gargs", ())))
+                if folded is None and len(args) == 1 and norm_path(path).rsplit("::", 1)[-1] in ("is_some", "is_none", "is_ok", "is_err") and ("Option" in path or "Result" in path):
+                    # is_some() & co. of a literal Some(..)/None/Ok(..)/Err(..) (arises when a helper returning a literal was inlined)
+                    a0 = args[0]
+                    while isinstance(a0, tuple) and a0 and a0[0] in ("ref", "refmut"):
+                        a0 = a0[1]
+                    if isinstance(a0, tuple) and a0[:2] == ("agg", "adt") and a0[3] in ("Some", "None", "Ok", "Err"):
+                        meth = norm_path(path).rsplit("::", 1)[-1]
+                        folded = ("const", "bool", {"is_some": a0[3] == "Some", "is_none": a0[3] == "None", "is_ok": a0[3] == "Ok", "is_err": a0[3] == "Err"}[meth])
                 if folded is None and len(args) == 1 and path.endswith("::len") and ("[T]>::len" in path or "[u8]>::len" in path or "str>::len" in path):
                     a0 = args[0]
                     while isinstance(a0, tuple) and a0 and a0[0] in ("ref", "deref"):
